@@ -549,6 +549,8 @@ impl SideMetadataSpec {
                 if bits_num_log < 3 {
                     let lshift = meta_byte_lshift(self, data_addr);
                     let mask = meta_byte_mask(self) << lshift;
+                    #[cfg(mmtk_verif)]
+                    crate::util::verif::rt::yield_point(crate::util::verif::rt::site::RAW_LOAD);
                     let byte_val = unsafe { meta_addr.atomic_load::<AtomicU8>(order) };
                     FromPrimitive::from_u8((byte_val & mask) >> lshift).unwrap()
                 } else {
@@ -720,12 +722,16 @@ impl SideMetadataSpec {
                     let lshift = meta_byte_lshift(self, data_addr);
                     let mask = meta_byte_mask(self) << lshift;
 
+                    #[cfg(mmtk_verif)]
+                    crate::util::verif::rt::yield_point(crate::util::verif::rt::site::RAW_LOAD);
                     let real_old_byte = unsafe { meta_addr.atomic_load::<AtomicU8>(success_order) };
                     let expected_old_byte =
                         (real_old_byte & !mask) | ((old_metadata.to_u8().unwrap()) << lshift);
                     let expected_new_byte =
                         (expected_old_byte & !mask) | ((new_metadata.to_u8().unwrap()) << lshift);
 
+                    #[cfg(mmtk_verif)]
+                    crate::util::verif::rt::yield_point(crate::util::verif::rt::site::RAW_CAS);
                     unsafe {
                         meta_addr.compare_exchange::<AtomicU8>(
                             expected_old_byte,
